@@ -55,6 +55,13 @@ func vC06Setup() (vC06State, *vTransport, *Conn) {
 func vSecondHello(st vC06State, variant int) (rec []byte, wantMsg []byte, class error, desc byte) {
 	outer2 := vHello{version: 0x0303, random: st.first.outer.random, sid: st.first.outer.sid, suites: []byte{0x13, 0x01}, comp: []byte{0}}
 	outer2.exts = []vExt{vSNI(st.name), vVersions(0x0304), {51, vBytes(2)}, {0xfe0d, nil}}
+	if variant == 9 { // authentic payload, but the outer SNI is no longer the public name
+		other := append([]byte{}, st.name...)
+		d := vByte()
+		vAssume(d != 0)
+		other[vInt(0, len(other)-1)] ^= d
+		outer2.exts[0] = vSNI(other)
+	}
 	inner2 := st.inner
 	inner2.exts = []vExt{vSNI(st.innerSN), vECHInner(), vALPN([][]byte{st.proto}), vVersions(0x0304), {51, vBytes(1)}}
 	switch variant {
@@ -106,14 +113,14 @@ func vSecondHello(st vC06State, variant int) (rec []byte, wantMsg []byte, class 
 		pl[vInt(0, len(pl)-1)] ^= d
 		o.exts[3] = vECHOuter(1, 1, st.k.id, enc2, pl)
 		wantMsg, class, desc = nil, ErrDecryptError, 51
-	case 7, 8:
+	case 7, 8, 9:
 		wantMsg, class, desc = nil, ErrIllegalParameter, 47
 	}
 	return o.record(), wantMsg, class, desc
 }
 
 // verifC06History: after an accepted first hello, a symbolic history of client
-// records (second hello in 9 variants, change_cipher_spec, application data,
+// records (second hello in 10 variants, change_cipher_spec, application data,
 // other handshake) and backend records (ServerHello, HelloRetryRequest,
 // change_cipher_spec, application data, other handshake), checked step by step
 // against a reference monitor of the statement.
@@ -169,7 +176,7 @@ func verifC06History() {
 			}
 			hellos++
 			isHello = true
-			rec, wantMsg, class, desc = vSecondHello(st, vInt(0, 8))
+			rec, wantMsg, class, desc = vSecondHello(st, vInt(0, 9))
 		case 6:
 			rec = vRecord(20, 0x0303, []byte{1})
 		case 7:
